@@ -4,4 +4,4 @@ META = dict(trusted_base=COMMON_TB + ["io.BytesIO.read(n) returns min(n, remaini
 
 
 def items(tier):
-    return contract_items("C19")
+    return contract_items("C19", tier)
